@@ -175,6 +175,15 @@ fn passes_check(case: &Value, stats: &mut Stats) -> CheckResult {
         _ => None,
     };
     ensure!(o.winner() == w, "winner()");
+    // the short status token of an outcome (used by the styled move list)
+    use owlchess::types::GameStatus;
+    let tok = match o {
+        Outcome::Win { side: owlchess::Color::White, .. } => "1-0",
+        Outcome::Win { side: owlchess::Color::Black, .. } => "0-1",
+        Outcome::Draw(_) => "1/2-1/2",
+    };
+    ensure!(GameStatus::from(o).to_string() == tok && GameStatus::from(&o).to_string() == tok && GameStatus::from(Some(o)).to_string() == tok, "GameStatus of {:?}", o);
+    ensure!(GameStatus::from(None).to_string() == "*", "GameStatus of no outcome");
     stats.nontrivial(&(case["outcome"].as_u64(), case["filter"].as_u64()));
     Ok(())
 }
